@@ -12,6 +12,10 @@ CLAIMED = {
  'C06': 'after every operation the strong/weak counters of every live object equal the ledger\'s handle counts for all 2^64 values of the symbolic extras (z3), ptr_eq agrees with identity',
  'C04': 'histories that end with every handle dropped: z3-decided paths all end with no RcBox block, link table, Vec or map of the model heap still allocated; with Weak handles outstanding only the bare block remains (w_j symbolic through the weak-drop lemma)',
  'C05': 'Weak::upgrade / strong_count / weak_count observed after every operation and from inside every destructor (Weak to self, peers, outsiders) agree with the ledger on every path; a handle returned by upgrade keeps its object alive while held; the block outlives every Weak',
+ 'C10': 'every member destructor position x one re-entrant API action on a bystander object/group (clone, drop incl. last handle and nested collection, adopt, unadopt, downgrade, upgrade of a Weak to a dying peer): no internal panic, no monitor event, and the C01-C06 oracles hold when the outer call returns',
+ 'C11': 'fault enumeration over which member destructor panics, following the unwind edges of the MIR: the panic reaches the caller (no abort), no destructor runs twice, nothing released twice, members of the interrupted group keep reporting dead through Weak, held objects stay intact',
+ 'C12': 'try_unwrap / make_mut (3 branches) / get_mut / raw round trips / increment-decrement_strong_count on every object of adoption graphs, then the remaining handles dropped: no table keeps naming a given-up block, no monitor event, no leaked table',
+ 'C13': 'histories where a recorded handle is taken out of its owner without unadopt (kept or dropped): no reachable object destroyed, no monitor event; the by-design violation is a listed finding keyed by cause, any other mechanism is reported',
  'C16': 'unit: Rc::clone over all 2^64 counter values aborts exactly for 0, MAX-1, MAX and otherwise adds one (z3); scenario: every member destructor of every group shape clones each handle it holds - every path through a clone of a dead handle ends in abort, dropping one changes nothing',
  'C08': 'after every operation the link tables of every live object equal, entry by entry, the graph implied by the adopt/unadopt calls; no zero entry; no entry naming a destroyed object',
 }
